@@ -100,7 +100,7 @@ func TestC14(t *testing.T) {
 		// a map key is drawn twice)
 		_, merr := json.Marshal(payload)
 		encodable := merr == nil
-		typ := rt.Pick(cr, nastyTypes)
+		typ := genType(cr)
 		created := time.Unix(int64(cr.Intn(2_000_000_000)), int64(cr.Intn(1_000_000_000))).In(time.FixedZone("z", (cr.Intn(27)-13)*1800))
 		switch cr.Intn(30) {
 		case 0:
@@ -116,7 +116,7 @@ func TestC14(t *testing.T) {
 		if node >= 1 {
 			ff := &eventlogger.JSONFormatterFilter{}
 			if node == 2 {
-				predicate = rt.Pick(cr, []string{"true", "false", "error"})
+				predicate = rt.Pick(cr, []string{"true", "false", "error", "true-error"})
 				p := predicate
 				ff.Predicate = func(e interface{}) (bool, error) {
 					sawEvent = e
@@ -125,6 +125,8 @@ func TestC14(t *testing.T) {
 						return true, nil
 					case "false":
 						return false, nil
+					case "true-error":
+						return true, errPredicate
 					}
 					return false, errPredicate
 				}
@@ -188,9 +190,9 @@ func TestC14(t *testing.T) {
 			if err != nil || out != nil {
 				run.Violation("history-pattern:forwarding", fmt.Sprintf("predicate false: the event must be dropped without error (out nil %v, err=%v)", out == nil, err), wit(""))
 			}
-		case "error":
+		case "error", "true-error":
 			if !errors.Is(err, errPredicate) || out != nil {
-				run.Violation("history-pattern:forwarding", fmt.Sprintf("predicate error: the error must be returned and nothing forwarded (err=%v)", err), wit(""))
+				run.Violation("history-pattern:forwarding", fmt.Sprintf("predicate %s: an error from the predicate is an error and nothing is forwarded (err=%v, forwarded=%v)", predicate, err, out != nil), wit(""))
 			}
 		}
 		if predicate != "none" && sawEvent != interface{}(ev) {
@@ -209,7 +211,7 @@ func TestC14(t *testing.T) {
 
 	// ---- Filter ---------------------------------------------------------------------------------------------
 	for i := 0; i < run.N(300, 5000); i++ {
-		pk := rt.Pick(r, []string{"true", "false", "error"})
+		pk := rt.Pick(r, []string{"true", "false", "error", "true-error"})
 		var saw *eventlogger.Event
 		f := &eventlogger.Filter{Predicate: func(e *eventlogger.Event) (bool, error) {
 			saw = e
@@ -218,6 +220,8 @@ func TestC14(t *testing.T) {
 				return true, nil
 			case "false":
 				return false, nil
+			case "true-error":
+				return true, errPredicate
 			}
 			return false, errPredicate
 		}}
